@@ -179,6 +179,38 @@ theorem array_positionwise (o : Oracles) (c : Column) (inp : ParsingInput) (rs :
       · left; rfl
     · left; rfl
 
+
+/-- which pattern a reference means: the *last* pattern of that name that took part on the line (a capture pattern
+takes part iff it matches; a split pattern always does, with the whole line as field 0) -/
+theorem reference_binding (d : TableDef) (lo : LineOracle) (name : Text) :
+    List.lookup name (ParsingInput.new d lo).regex = lastNamed lo name d.patterns :=
+  lookup_new d lo name
+
+/-- **timestamp column, position by position.** If every listed part denotes an integer that fits its field and the
+stored parts form a valid civil time, the column *is* that timestamp. -/
+theorem timestamp_of_parts (c : Column) (parts : List PartVal) (p' : TsParts) (t : Value)
+    (hs : storeParts c.options.microseconds parts 0 {} = some p')
+    (hm : mkTimestamp p'.year p'.month p'.day p'.hour p'.minute p'.second p'.micro = some t) :
+    specTsFrom c parts 0 {} = t :=
+  specTsFrom_of_stored c parts 0 {} p' t hs hm
+
+/-- Conversely (no DEFAULT declared) a non-NULL TIMESTAMP column means: every listed part was present and denoted an
+integer within its field, and the timestamp's civil fields are exactly the stored parts — unlisted fields keep
+year 0 / month 1 / day 1 / 00:00:00.0. A missing, non-numeric or out-of-range part never yields a timestamp. -/
+theorem timestamp_column_faithful (c : Column) (hd : c.defaultValue = .null) (parts : List PartVal)
+    (h : (specTsFrom c parts 0 {}).isNull = false) :
+    ∃ p', storeParts c.options.microseconds parts 0 {} = some p' ∧
+      tsFields (specTsFrom c parts 0 {}) = some p' := by
+  obtain ⟨p', h1, _, h3⟩ := specTsFrom_nonnull c hd parts 0 {} h
+  exact ⟨p', h1, h3⟩
+
+/-- `str::trim` (model): the result is a contiguous piece of the text, nothing but a prefix and a suffix is removed,
+the prefix removal stops at the first and the suffix removal at the last non-whitespace character -/
+theorem trim_removes_only_ends (s : Text) :
+    (∃ l r, s = l ++ trim s ++ r) ∧ wsSuffixRev (trim s).reverse = 0 ∧
+    (∃ r, trimStart s = trim s ++ r) ∧ wsPrefix (trimStart s) = 0 :=
+  Lit.trim_spec s
+
 /-! ### non-vacuity: the hypotheses are satisfiable and the functions compute on concrete inputs -/
 
 /-- `line = split ';', line[1] => a INT NOT NULL, line[2] => b TEXT TRIM, line[3] => c BOOLEAN, line[4] => d INT DEFAULT 7` -/
@@ -220,6 +252,10 @@ example : mkTimestamp 2021 2 29 0 0 0 0 = none := by decide
 example : setPart false 1 4294967297 {} = none := by decide
 example : setPart false 6 9999999 {} = none := by decide
 example : monthOfName [83, 69, 80, 84] = some 9 := by decide
+example : storeParts false [.num 2020, .num 2, .num 29] 0 {} = some { year := 2020, month := 2, day := 29 } := by decide
+example : (specTsFrom { parsing := .multi [], type := .timestamp } [.num 2020, .num 2, .num 29] 0 {}).isNull = false := by decide
+example : specTsFrom { parsing := .multi [], type := .timestamp } [.num 2020, .absent, .num 29] 0 {} = .null := by rfl
+example : specTsFrom { parsing := .multi [], type := .timestamp } [.num 2020, .num 4294967297, .num 29] 0 {} = .null := by rfl
 example : trim [32, 0xC2, 0xA0, 97, 32, 98, 0xE3, 0x80, 0x80, 9] = [97, 32, 98] := by decide
 
 end Sqlgrep.Props.C01
